@@ -366,7 +366,11 @@ func c07(seed uint64, n int) {
 		}
 	}
 	seq0 := func() uint32 {
-		switch r.Intn(5) {
+		switch r.Intn(6) {
+		case 5:
+			// just below the roll-over: nextSequenceNumber wraps to 1 after MaxUint32-1023 = 4294966272,
+			// so a multi-chunk message started here straddles the roll-over
+			return 4294966271 - uint32(r.Intn(4))
 		case 0:
 			return 0xffffffff - uint32(r.Intn(1030)) // around the wrap at MaxUint32-1023
 		case 1:
